@@ -60,6 +60,12 @@ def make_action(pp, tag):
         def f(s, l, t):
             raise pp.ParseFatalException(s, l, "action failF")
         return f
+    if kind == "failSub":      # oracle-only: an application-defined subclass of ParseException
+        sub = type("OutOfRange", (pp.ParseException,), {})
+
+        def f(s, l, t):
+            raise sub(s, l, "action failSub")
+        return f
     raise ValueError(tag)
 
 
